@@ -36,7 +36,7 @@ extern "C" void harness() {
   }
   c.setCellWidth(w); c.setCellHeight(h); c.setCellX(x); c.setCellY(y); c.setCellOrientation(orient); c.setCellRowPolarity(pol);
   int offs = __verif_choice(OFFCHOICES);
-  c.addNet({0, 1}, {offs ? 3 : 0, 1}, {offs ? 8 : 2, 5});
+  c.addNet({0, 1, 1}, {offs ? 3 : 0, 1, 5}, {offs ? 8 : 2, 5, 2});   // cell 1 (width 6) appears twice, with pins at both ends (repeated cells)
 #if NNETS > 1
   c.addNet({1, 2, 0}, {2, offs ? 0 : 3, 1}, {4, 1, offs ? 9 : 0});
 #endif
